@@ -2,7 +2,7 @@
 from checks import symgen, refqr
 
 ID = 'C06'
-PROP_MODULES = ['QRV.Props.C06', 'QRV.Props.C06Micro', 'QRV.Props.C06RMQR']
+PROP_MODULES = ['QRV.Props.C06', 'QRV.Props.C06Micro', 'QRV.Props.C06RMQR', 'QRV.Props.C06Output']
 RULE = ('bitmaps of sizes {0, 1, 7, 11..29, every valid size of every symbology and +-1, 43x7-style non-square, 181, 185, 1000x3}, origins {(0,0), (5,5), (-3,-3)} and, for valid symbols, origins far from the symbol size on either side ((-w,-h), (-40,-40), (-1000,7), (300,0), (1000,1000), ...), contents: blank, '
         'all dark, noise, valid symbols of every symbology cropped / padded / pasted on a canvas of another version\'s size / shifted to a non-zero origin / with another version\'s '
         'format information stamped in / fed to the wrong symbology\'s decoder; each fed to all three DecodeBitmap functions under recover(), with a memory limit. '
@@ -14,7 +14,7 @@ TRUSTED = [
     'symbol models (with explicit index / nil / bounds checks as panic outcomes) tied by correspondence',
 ]
 ASSUMPTIONS = ['images are those constructible with bitmap.New(rect)+SetBinary: Pix has Stride*Dy bytes']
-PARTIAL = 'totality (no panic, termination) is a theorem for every well-formed bitmap for all three decoders (qr_decode_total, micro_decode_total, rmqr_decode_total); the allocation bound is measured, not proved'
+PARTIAL = 'totality (no panic, termination) is a theorem for every well-formed bitmap for all three decoders (qr_decode_total, micro_decode_total, rmqr_decode_total); the allocation bound is measured by the harness; what is a statement about values is proved (C06Output: the payload bytes of everything a decoder returns are fewer than the bitmap has modules)'
 MANIFEST = {
     'technique': 'Lean 4: total no-panic/termination theorems for the QR, Micro QR and rMQR decoder models (every index, nil, bound and fuel branch), wrong-size rejection; malformed-bitmap differential runs under recover()',
     'text': ('QRV/Props/C06.lean proves for the QR decoder model, in which every Go index expression, nil dereference, slice bound and explicit panic is an explicit branch and every loop has fuel: for EVERY '
